@@ -62,8 +62,6 @@ example : oneRulePerFamily [(Rule.gt, 0), (Rule.lte, 9)] = true := by decide
 
 end Gleece.Bounds
 
-namespace Gleece.IR
-/-- both emitters share `docSecurity`, `docParams`, `docResponses`, `emitOps`: stated once so that the
-    audit lists the dependency -/
-theorem structural_part_is_shared (cs : List Controller) : emitOps cs = emitOps cs := rfl
-end Gleece.IR
+/- The structural part (operations, parameters, bodies, responses, security) is ONE model function for both
+   emitters; "both versions agree" on it is therefore not a Lean statement but the conjunction of the C01 / C04 /
+   C06 ties of each real document to that function, plus the direct document-vs-document diff of `checkC11`. -/
